@@ -16,6 +16,9 @@ CLAIMED = {
                      "return a sorted permutation with eigenvector columns permuted alike (2D: in-plane pair only); the stensor::computeEigenValues/Vectors(o) callers are proved against the sorters' contracts with the eigen solver as a stub.",
                 note=TB_E1 + " Eigen solver itself (accuracy) is C03, not covered."),
 }
+CLAIMED["C16"] = dict(engine="E1", technique="CBMC function contracts on extracted C text, enforced per function (isnan/isfinite checked against fpclassify's contract); complete over all 2^32/2^64/2^80 bit patterns",
+    text="Proof over every float, double and x87 long double bit pattern: fpclassify equals the IEEE-754 field definition and CBMC's own isnan/isinf/isnormal (float, double), and for the 80-bit format equals the 12-row class table read from the platform libc at check time; isnan/isfinite are the matching predicates. -ffast-math independence rests on a supporting static fact (no floating-point operation in the bodies).",
+    note=TB_E1 + " long double is verified on its {uint64,uint16} x87 image (bit_cast assumed = object representation); compiler correctness under -ffast-math for integer-only code is trusted, not proved.")
 
 NOT_APPLICABLE = {
     "C03": "floating-point tolerance statement about iterative eigen-solvers (Jacobi/QL/Cardano with cos/acos); no contract within reach of CBMC-C or the real-arithmetic VC generator expresses it",
